@@ -4,9 +4,10 @@
    fails, a number = wait that many ms, "s" = sample the counters. *)
 EXTENDS Integers, Sequences, TLC, Json
 CONSTANT Tier
-Window == [kind : {"window"}, F : {300, 600}, M : {1, 2, 3}, script : {1, 2, 3, 4}]
+Window == [kind : {"window"}, F : {300, 600}, M : {1, 2, 3}, script : {1, 2, 3, 4, 5, 6}]
 Retry  == [kind : {"retry"}, D : {0, 150, 400, 1000}, I : {50, 120, 250}, passive : {FALSE, TRUE}, ups : {1, 2}]
 Limit  == [kind : {"limit"}, max : {1, 2}, ups : {1, 2}, via : {"max_connections", "unhealthy_connection_count"}]
+          \cup [kind : {"limit"}, max : {1, 2}, ups : {1}, via : {"partial_dial"}]
 Active == [kind : {"active"}, interval : {60, 150}]
 Grid == Window \cup Retry \cup Limit \cup Active
 QuickGrid == { g \in Grid : (g.kind = "retry" => g.D < 1000 /\ g.I # 250) /\ (g.kind = "window" => g.F = 300) /\ (g.kind = "active" => g.interval = 60) }
